@@ -1750,6 +1750,9 @@ impl<'a> FnCx<'a> {
                         _ => return err(fv, "tuple member"),
                     };
                     let fld = si.fields.iter().find(|x| x.name == fname).ok_or((fv.span().start().line, format!("no field {}", fname)))?;
+                    if fld.ty == Ty::Unknown {
+                        return err(fv, format!("struct literal sets field {} whose type {} is outside the grammar", fname, fld.rust_ty));
+                    }
                     let v = self.tr_expr(&fv.expr, lines)?;
                     parts.push(format!("{} := {}", fld.lean, v.val));
                 }
